@@ -309,7 +309,7 @@ CHECKS = {
                    "client below /dev/shm is, before every libc call the server makes, not more permissive than the chosen mode (directories: closed to others), and owned by the authorised user and group once connected",
         level_note="needs root (otherwise the run is reported inconclusive); modes without owner read/write are not generated (files are created 0600 first: the statement's default); transient ownership by the creating "
                    "server before chown is not flagged, only the mode is checked at every moment; ownership is checked once the client reports it is connected",
-        stages=[rnd("admit", "c05", 12000, 1000000, essential=["refused", "accepted_default_auth", "accepted_custom_owner", "accepted_custom_mode", "non_root_client", "effective_differs_from_real", "concurrent_mix",
+        stages=[rnd("admit", "c05", 12000, 500000, essential=["refused", "accepted_default_auth", "accepted_custom_owner", "accepted_custom_mode", "non_root_client", "effective_differs_from_real", "concurrent_mix",
                                                                  "refused_and_accepted_together", "moments_observed_100", "shm", "socket", "client_talked"])],
         assumptions=["the sandbox lets root switch to arbitrary numeric ids (no user namespaces restrictions)", "clients and server share a pid namespace (per-connection directory names carry the client pid)"],
     ),
